@@ -24,7 +24,8 @@ def generate(ctx):
     cases = []
     ops = [ao.op_getitem_int, ao.op_getitem_slice, ao.op_getitem_slice, ao.op_getitem_mask, ao.op_getitem_idx, ao.op_take,
            ao.op_take, ao.op_concat, ao.op_simple, ao.op_setitem, ao.op_setitem, ao.op_setitem,
-           lambda r, i: ao.op_setitem(r, i, malformed=True), lambda r, i: ao.op_setitem(r, i, via_series=True)]
+           lambda r, i: ao.op_setitem(r, i, malformed=True), lambda r, i: ao.op_setitem(r, i, via_series=True),
+           lambda r, i: ao.op_setitem(r, i, force_multi=True)]
     for i in range(n):
         corner = {0: "zero_rows", 1: "all_missing", 2: "all_empty"}.get(i % 50)
         inp = ao.mk_input(rng, max_rows=max_rows, recipes=LAYOUTS, corner=corner,
